@@ -343,7 +343,12 @@ def selector_rules(ctx, prop: str):
                              and _contains_kind(s, 'CXXBoolLiteralExpr') for s in stmts[i + 1:])
             flag_true = any(kind(x) == 'CXXBoolLiteralExpr' and x.get('value') is True for s in stmts[i + 1:] for x in walk_json(s)
                             if kind(s) == 'BinaryOperator')
-            if over_clients and calls and on_port and not early and flag_after and flag_true:
+            # a `return` in front of the loop skips the checks altogether (a `throw` there is a refusal, which is fine)
+            skips = [x for s_ in stmts[:i] for x in walk_json(s_) if kind(x) == 'ReturnStmt']
+            if skips:
+                why = ('FinalConstruct() can return before it has checked the client ports (a return statement precedes the loop): '
+                       'a repeated final construction no longer detects an unbound event of a registered client')
+            elif over_clients and calls and on_port and not early and flag_after and flag_true:
                 ok, why = True, 'FinalConstruct checks the bindings of every client port, then locks registration'
             elif early:
                 why = 'the loop over the client ports can leave early: later clients are not checked'
@@ -388,6 +393,27 @@ def selector_rules(ctx, prop: str):
                 why = 'Select switches to the registered client `identifier` only' if guarded else \
                     'Select assigns the selection without first testing that the client is registered'
         run.add('C04.selector', mod, 'MultiClientSelector::Select', 'Select body', ok, why)
+        # who may change the selection: Select assigns, Deselect resets - nobody else (a selection without a granted claim
+        # would deliver out-events to a client that holds no claim)
+        for name, m in methods.items():
+            if name in ('Select', 'Deselect'):
+                continue
+            b = body_of(m)
+            writes = []
+            for x in walk_json(b):
+                if kind(x) == 'CXXOperatorCallExpr' and any(
+                        kind(y) == 'DeclRefExpr' and (y.get('referencedDecl') or {}).get('name') == 'operator=' for y in walk_json((x.get('inner') or [{}])[0])):
+                    lhs = (x.get('inner') or [None, None])[1] if len(x.get('inner') or []) > 1 else None
+                    if lhs is not None and (refers_to_member(lhs, 'm_clientSelect') or _calls_member(lhs, 'CurrentClient')):
+                        writes.append('assignment to the selection')
+            for meth in ('reset', 'emplace', 'swap'):
+                for c in _calls_member(b, meth):
+                    if refers_to_member(c, 'm_clientSelect') or _calls_member(c, 'CurrentClient'):
+                        writes.append(f'{meth}() on the selection')
+            run.add('C04.selector', mod, f'MultiClientSelector::{name}', f'{name}: writes to the selection {writes or "none"}', not writes,
+                    f'{name} does not change who is selected' if not writes else
+                    f'{name} changes the selection ({", ".join(sorted(set(writes)))}): a client becomes (de)selected without a granted '
+                    f'claim / a release of its own')
         cc = body_of(methods['CurrentClient'])
         ok = any(kind(x) == 'CXXOperatorCallExpr' and refers_to_member(x, 'm_clientSelect') for x in walk_json(cc)) and \
             any(kind(s) == 'ReturnStmt' for s in cc.get('inner', []))
